@@ -601,14 +601,14 @@ pub fn swarm_sub() -> Sub {
         cases: |t| t.pick(8_000, 100_000),
         run: |ctx| run_proptest(ctx, "swarm", strategy(ctx.tier), check),
         replay: |v| replay_case::<Case>(v, check),
-        min_class: &[(">=2-peers", 0.3747), ("non-essential-peer-disconnected", 0.0767), ("stream-cut-inside-a-message", 0.228), ("cut-inside-length-prefix", 0.2), ("multi-file", 0.258), ("piece-announced-by-have", 0.15), ("unknown-id-message", 0.15), ("peer-interested-in-client", 0.2), ("task-delayed-by-the-scheduler", 0.1)],
+        min_class: &[(">=2-peers", 0.3747), ("non-essential-peer-disconnected", 0.0767), ("stream-cut-inside-a-message", 0.228), ("cut-inside-length-prefix", 0.2), ("multi-file", 0.258), ("piece-announced-by-have", 0.15), ("unknown-id-message", 0.15), ("peer-interested-in-client", 0.2), ("task-delayed-by-the-scheduler", 0.1), ("answers-out-of-request-order", 0.06)],
     }
 }
 
 pub fn def() -> PropDef {
     PropDef {
         id: "C02",
-        rule: "sub swarm: a consistent torrent geometry (piece length from {1,3,64,1000,16384,16385,20000 (+16383,32768,40000 thorough)}, 1-5 files incl. zero-length and sub-piece files, single/multi-file form) and 1-4 honest peers whose piece sets cover everything on the essential ones; honest peers (some of them downloaders that declare interest in the client, some whose answers to cancelled requests are already in flight) answer every request with the right bytes, unchoke 0-59 virtual seconds after joining or after having choked, announce pieces by bitfield or partly by later Haves, send keep-alives and unknown-id messages; a generated script of up to 50 moves (serve 1-3 blocks, choke, unchoke, keep-alive, unknown message, have, disconnect of a non-essential peer, idle) picks who moves next; every outgoing message may be cut at generated points (also inside the length prefix) with or without a barrier between segments; afterwards all surviving honest peers serve until done, and an essential peer the client dropped is handed out again. Oracle: all pieces Have within 60 virtual minutes, never 200 virtual seconds without any request or delivery while an honest peer is connected, not choking the client and offering a missing piece (a hang), no task or manager panic, no honest connection ended by the client with an error, and the real Extractor reproduces every file byte for byte. Non-trivial = >= 2 peers and (a non-essential disconnect or a stream cut inside a message); distinct by hash of the case.",
+        rule: "sub swarm: a consistent torrent geometry (piece length from {1,3,64,1000,16384,16385,20000 (+16383,32768,40000 thorough)}, 1-5 files incl. zero-length and sub-piece files, single/multi-file form) and 1-4 honest peers whose piece sets cover everything on the essential ones; honest peers (some of them downloaders that declare interest in the client, some whose answers to cancelled requests are already in flight) answer every request with the right bytes (30 % of them newest request first), unchoke 0-59 virtual seconds after joining or after having choked, announce pieces by bitfield or partly by later Haves, send keep-alives and unknown-id messages; a generated script of up to 50 moves (serve 1-3 blocks, choke, unchoke, keep-alive, unknown message, have, disconnect of a non-essential peer, idle) picks who moves next; every outgoing message may be cut at generated points (also inside the length prefix) with or without a barrier between segments; afterwards all surviving honest peers serve until done, and an essential peer the client dropped is handed out again. Oracle: all pieces Have within 60 virtual minutes, never 200 virtual seconds without any request or delivery while an honest peer is connected, not choking the client and offering a missing piece (a hang), no task or manager panic, no honest connection ended by the client with an error, and the real Extractor reproduces every file byte for byte. Non-trivial = >= 2 peers and (a non-essential disconnect or a stream cut inside a message); distinct by hash of the case.",
         assumptions: &[
             "liveness is decided up to a horizon of 60 virtual minutes",
             "a dropped essential peer is reachable again (the harness reconnects it, as a tracker would hand it out again)",
